@@ -1,0 +1,8 @@
+//go:build !verif
+
+package gcs
+
+// simPoint marks a point at which a deterministic simulator may take a
+// scheduling decision. Without the "verif" build tag it is an empty function
+// that the compiler inlines away: shipped behaviour is unchanged.
+func simPoint(site int) {}
